@@ -131,7 +131,7 @@ class World:
         try:
             with open(self.abs(comps), "rb") as f:
                 return f.read()
-        except FileNotFoundError:
+        except OSError:             # missing, or unreachable (ENOTDIR, ELOOP, ENAMETOOLONG): no bytes to read
             return None
 
     def snapshot(self):
